@@ -2,6 +2,7 @@ package main
 
 import (
 	"fmt"
+	"regexp"
 	"math/big"
 	"strconv"
 	"strings"
@@ -455,6 +456,16 @@ type Clause struct {
 
 type Param struct{ Name, Type string }
 
+// ModItem: one item of a modifies clause: a whole heap (Heap != ""), or a location expression:
+// x.f (field f of object x), elems(x) (the backing array of slice x), entries(m) (map m),
+// bigval(p) (the big integer p points to).
+type ModItem struct {
+	Heap string
+	E    Expr
+	Text string
+	Line int
+}
+
 type Contract struct {
 	Key      string // function key within its package, e.g. "clampIndex", "(*stack).push", "funcOpAdd$1"
 	Pkg      string // package path ("" for externals means key is fully qualified)
@@ -464,6 +475,7 @@ type Contract struct {
 	Results  []string
 	Clauses  []*Clause
 	Modifies []string // heap names or "*" patterns; nil means pure (nothing pre-existing modified)
+	ModItems []*ModItem
 	ModAll   bool
 	Flags    map[string]bool
 	Panics   bool
@@ -499,7 +511,15 @@ type Lemma struct {
 	Line    int
 }
 
+type TypeInv struct {
+	Var    string
+	Type   string // e.g. "*stack"
+	Pkg    string
+	Clause *Clause
+}
+
 type SpecSet struct {
+	TypeInvs  []*TypeInv
 	Contracts map[string]*Contract // by pkgpath + "::" + key, or key for externals
 	Funcs     map[string]*SpecFunc
 	Axioms    []*Axiom
@@ -767,12 +787,22 @@ func (ss *SpecSet) parseSpecText(file, pkgPath, text string) {
 			if cur.Modifies == nil {
 				cur.Modifies = []string{}
 			}
-			for _, m := range strings.Split(rest, ",") {
+			for _, m := range splitTopLevelCommas(rest) {
 				m = strings.TrimSpace(m)
 				if m == "*" {
 					cur.ModAll = true
 				} else if m != "" {
-					cur.Modifies = append(cur.Modifies, m)
+					if heapNameRe.MatchString(m) {
+						cur.Modifies = append(cur.Modifies, m)
+						cur.ModItems = append(cur.ModItems, &ModItem{Heap: m, Text: m, Line: ln + 1})
+					} else {
+						e, err := parseExpr(m)
+						if err != nil {
+							errf(ln, "%v", err)
+							continue
+						}
+						cur.ModItems = append(cur.ModItems, &ModItem{E: e, Text: m, Line: ln + 1})
+					}
 				}
 			}
 		case "flag":
@@ -823,6 +853,23 @@ func (ss *SpecSet) parseSpecText(file, pkgPath, text string) {
 			ax := &Axiom{Name: strings.TrimSpace(rest[:i]), Text: strings.TrimSpace(rest[i+1:]), File: file, Line: ln + 1}
 			ss.Axioms = append(ss.Axioms, ax)
 			lastAx = ax
+		case "invariant-of":
+			// //@ invariant-of (s *stack) expr
+			finish()
+			cur, curLemma = nil, nil
+			if !strings.HasPrefix(rest, "(") {
+				errf(ln, "invariant-of needs a receiver")
+				continue
+			}
+			end := matchParen(rest, 0)
+			rp := parseParamList(rest[1:end])
+			if end < 0 || len(rp) != 1 {
+				errf(ln, "bad invariant-of receiver")
+				continue
+			}
+			cl := &Clause{Kind: "type-invariant", Text: strings.TrimSpace(rest[end+1:]), Props: props, Line: ln + 1, File: file}
+			ss.TypeInvs = append(ss.TypeInvs, &TypeInv{Var: rp[0].Name, Type: rp[0].Type, Pkg: pkgPath, Clause: cl})
+			last = cl
 		case "lemma":
 			finish()
 			cur = nil
@@ -849,6 +896,27 @@ func (ss *SpecSet) parseSpecText(file, pkgPath, text string) {
 		}
 	}
 	finish()
+}
+
+var heapNameRe = regexp.MustCompile(`^(HE_|HF_|HC_|HMD_|HMV_|HML_|BIG$|ALLOC$|OPAQUE$|GH_)[A-Za-z0-9_]*\*?$`)
+
+func splitTopLevelCommas(s string) []string {
+	var parts []string
+	depth, start := 0, 0
+	for i := 0; i < len(s); i++ {
+		switch s[i] {
+		case '(', '[':
+			depth++
+		case ')', ']':
+			depth--
+		case ',':
+			if depth == 0 {
+				parts = append(parts, s[start:i])
+				start = i + 1
+			}
+		}
+	}
+	return append(parts, s[start:])
 }
 
 func topLevelAssign(s string) int {
